@@ -390,6 +390,21 @@ func genC19(g *Rng, tier string, emit func(Op)) {
 	for _, x := range []int64{0, 1, 2, 3, 4, 5, 7, 9, 11, 13, 23, 47, 59, 83, 107, 561, 1105, 1729, 2465, 2047, 3277, 4033} {
 		emit(Op{"op": "safeprime", "class": "fixed", "x": hxi(x)})
 	}
+	// every small number, labelled by trial division (5 = 2*2+1 is the one safe prime that is 1 mod 4)
+	isPrimeSmall := func(n int64) bool {
+		if n < 2 {
+			return false
+		}
+		for d := int64(2); d*d <= n; d++ {
+			if n%d == 0 {
+				return false
+			}
+		}
+		return true
+	}
+	for x := int64(0); x < 3000; x++ {
+		emit(Op{"op": "safeprime", "class": "small-by-trial-division", "label": fmt.Sprint(isPrimeSmall(x) && x%2 == 1 && isPrimeSmall((x-1)/2)), "fkey": "C19/safeprime-small", "x": hxi(x)})
+	}
 	// every size in a range that covers all residues of the size modulo 8 (the top byte of a
 	// candidate has 1..8 significant bits): the result has exactly the requested length
 	for bits := 9; bits <= 72; bits++ {
